@@ -1,6 +1,7 @@
 """C17 — record headers, fixed bodies and generated replies encode exactly as specified (R17.1–R17.8)."""
 import json
 import os
+import re
 
 import facts as F
 import ir
@@ -677,11 +678,49 @@ def run(rep, facts):
     rep.rule("R17.5", "write_response: GetValuesResult with id 0, values from config.max_conns / \"0\", appended after existing contents; RESPONSE_LEN covers the maximal reply")
     rep.rule("R17.6", "set_lengths: padding = 0 if content%8 == 0 else 8 - content%8")
     rep.rule("R17.7", "byte layout: to_bytes and from_bytes of the four wire structs agree with each other and with the specification layout (big-endian)")
+    rep.rule("R17.10", "the integer conversions the wire layouts go through are the identity on the encoded value: enum -> integer is the discriminant, RequestFlags <-> u8 keep every bit (bits() / from_bits_retain)")
     rep.rule("R17.8", "RecordHeader::from_bytes validates the version (byte 0) before decoding the record type (byte 1)")
     import check
     for fn in (r17_1_tables, r17_1_from_repr, r17_2_exit_status, r17_3_to_record, r17_4_epilogue, r17_5_response,
-               r17_6_set_lengths, r17_7_layouts, r17_8_version_first, r17_9_epilogue_streams):
+               r17_6_set_lengths, r17_7_layouts, r17_8_version_first, r17_9_epilogue_streams, r17_10_wire_conversions):
         check.guard(rep, fn.__name__.split("_")[0].upper().replace("R17", "R17.") + fn.__name__.split("_")[1], fn, facts)
+
+
+def r17_10_wire_conversions(rep, facts):
+    """R17.10: the conversions the byte layouts go through (R17.7 treats `u8::from(field)` / `X::from(byte)` as atoms) are the identity on the
+    wire value: enum -> integer is the discriminant cast, RequestFlags -> u8 is `bits()` of the whole set, u8 -> RequestFlags retains every bit."""
+    n = 0
+    for b in facts.bodies:
+        if b.promoted or "convert::From<" not in b.path or not b.loc().startswith("src/protocol/fields"):
+            continue
+        m = re.search(r"impl std::convert::From<protocol::fields::(\w+)> for (u8|u16)>::from$", b.path)
+        back = b.path == "<protocol::fields::RequestFlags as std::convert::From<u8>>::from"
+        if not m and not back:
+            continue
+        g = ieg.IEG(facts, b, inline_filter=lambda x: False)
+        rows = [r for r in paths.rows(g) if r.end == 'return']
+        what = (m.group(1) + " -> " + m.group(2)) if m else "u8 -> RequestFlags"
+        n += 1
+        ok = bool(rows)
+        form = None
+        for r in rows:
+            e = ir.peel(r.ret) if r.ret is not None else ('?',)
+            if nonconst_conds(r):
+                ok = False
+            if m and e[0] == 'discr' and ir.peel(e[1])[0] == 'param':
+                form = "the discriminant"
+            elif m and e[0] == 'call' and e[1].startswith("protocol::fields::") and e[1].endswith("::bits") and len(e[2]) == 1 and ir.peel(e[2][0])[0] == 'param':
+                form = "bits() of the whole set"
+            elif back and e[0] == 'call' and e[1].endswith("::from_bits_retain") and len(e[2]) == 1 and ir.peel(e[2][0])[0] == 'param':
+                form = "from_bits_retain(byte)"
+            else:
+                ok = False
+                form = ir.show(e)[:80]
+        if ok:
+            rep.ok("R17.10", "conversion[%s]" % what, "returns %s" % form, b.loc())
+        else:
+            rep.violation("R17.10", "conversion[%s]" % what, "the wire conversion is not the identity on the encoded value (returns %s): a decoded value would not re-encode to the bytes it came from" % form, b.loc())
+    rep.floor("R17.10", "wire conversions", n, 6)
 
 
 def r17_9_epilogue_streams(rep, facts):
